@@ -317,6 +317,8 @@ pub struct Cli {
     pub rx: Vec<u8>,
     pub end: End,
     pub unconfirmed_splits: u64,
+    /// the server is not in this process (no hook events): never wait for them
+    pub plain: bool,
 }
 
 impl Cli {
@@ -338,7 +340,7 @@ impl Cli {
                     let lp = s.local_addr().map(|a| a.port()).unwrap_or(0);
                     let key = ((server_port as u32) << 16) | lp as u32;
                     conn_log().adopt(key, floor);
-                    return Ok(Cli { s, port: key, sent: 0, rx: vec![], end: End::Open, unconfirmed_splits: 0 });
+                    return Ok(Cli { s, port: key, sent: 0, rx: vec![], end: End::Open, unconfirmed_splits: 0, plain: false });
                 }
                 Err(_) => std::thread::sleep(Duration::from_millis(20)),
             }
@@ -402,7 +404,17 @@ impl Cli {
         self.wait_consumed(Duration::from_secs(3))
     }
 
+    /// connection to a server in another process
+    pub fn connect_plain(server_port: u16) -> Result<Cli, String> {
+        let mut c = Cli::connect(server_port)?;
+        c.plain = true;
+        Ok(c)
+    }
+
     pub fn wait_consumed(&mut self, timeout: Duration) -> bool {
+        if self.plain {
+            return true;
+        }
         let log = conn_log();
         let t0 = Instant::now();
         let sent = self.sent;
